@@ -143,6 +143,52 @@ func ext۰reflect۰rtype۰Size(fr *frame, args []value) value {
 	return uintptr(fr.i.sizes.Sizeof(args[0].(rtype).t))
 }
 
+func ext۰reflect۰rtype۰PkgPath(fr *frame, args []value) value {
+	// Signature: func (t reflect.rtype) string — "" for unnamed and predeclared types
+	if n, ok := types.Unalias(args[0].(rtype).t).(*types.Named); ok && n.Obj().Pkg() != nil {
+		return n.Obj().Pkg().Path()
+	}
+	return ""
+}
+
+func ext۰reflect۰rtype۰Name(fr *frame, args []value) value {
+	// Signature: func (t reflect.rtype) string — "" for unnamed types
+	switch n := types.Unalias(args[0].(rtype).t).(type) {
+	case *types.Named:
+		return n.Obj().Name()
+	case *types.Basic:
+		return n.Name()
+	}
+	return ""
+}
+
+// (reflect.Value).IsZero: the value equals the zero value of its type (concrete values only).
+func ext۰reflect۰Value۰IsZero(fr *frame, args []value) value {
+	t := rV2T(args[0]).t
+	if t == nil {
+		panic("reflect: call of reflect.Value.IsZero on zero Value")
+	}
+	v := rV2V(args[0])
+	if isSym(v) || isStrLike(v) {
+		return fr.i.symEquals(t, v, zero(t))
+	}
+	switch v.(type) {
+	case *omap, []value:
+		return reflectIsNilLike(v)
+	}
+	return equals(t, v, zero(t))
+}
+
+func reflectIsNilLike(v value) bool {
+	switch x := v.(type) {
+	case *omap:
+		return x == nil
+	case []value:
+		return x == nil
+	}
+	return false
+}
+
 func ext۰reflect۰rtype۰String(fr *frame, args []value) value {
 	// Signature: func (t reflect.rtype) string
 	return args[0].(rtype).t.String()
@@ -560,6 +606,8 @@ func initReflect(i *interpreter) {
 		"Out":       newMethod(i.reflectPackage, rtypeType, "Out"),
 		"Size":      newMethod(i.reflectPackage, rtypeType, "Size"),
 		"String":    newMethod(i.reflectPackage, rtypeType, "String"),
+		"PkgPath":   newMethod(i.reflectPackage, rtypeType, "PkgPath"),
+		"Name":      newMethod(i.reflectPackage, rtypeType, "Name"),
 	}
 	i.errorMethods = methodSet{
 		"Error": newMethod(i.reflectPackage, errorType, "Error"),
